@@ -19,11 +19,16 @@ def run(c):
     try:
         repo = tmp + '/repo'
         subprocess.run(['rsync', '-a', '--exclude', '.git', '/repo/', repo + '/'], check=True)
-        p = os.path.join(repo, c['file'])
-        s = open(p).read()
-        if s.count(c['old']) != 1:
-            return c, 'STALE', 'pattern occurs %d times in %s' % (s.count(c['old']), c['file'])
-        open(p, 'w').write(s.replace(c['old'], c['new']))
+        if c.get('patch'):
+            r = subprocess.run(['patch', '-p1', '-s', '--no-backup-if-mismatch', '-i', os.path.join(V, c['patch'])], cwd=repo, capture_output=True, text=True)
+            if r.returncode != 0:
+                return c, 'STALE', 'patch does not apply: ' + (r.stdout + r.stderr)[-200:]
+        else:
+            p = os.path.join(repo, c['file'])
+            s = open(p).read()
+            if s.count(c['old']) != 1:
+                return c, 'STALE', 'pattern occurs %d times in %s' % (s.count(c['old']), c['file'])
+            open(p, 'w').write(s.replace(c['old'], c['new']))
         b = subprocess.run(['go', 'build', './...'], cwd=repo, env=ENV, capture_output=True, text=True)
         if b.returncode != 0:
             return c, 'STALE', 'does not compile: ' + b.stderr[-300:]
